@@ -1,3 +1,4 @@
+pub mod flow;
 pub mod grammar;
 pub mod intval;
 pub mod labels;
